@@ -172,6 +172,13 @@ def sufficient(rows, supplied):
     return M.rank() == 21
 
 
+def rank_of(rows, supplied):
+    """Exact rank of [unit rows of the supplied keys; relations]."""
+    import sympy
+    m = [list(r) for r in rows] + [[int(kk == c) for kk in KEYS] for c in supplied]
+    return sympy.Matrix(m).rank() if m else 0
+
+
 def make_table(t_rows, supplied, spell=None, volumes=None, extra=None):
     """DataFrame with a float V column, object (Sym) modulus columns in the given order / spelling."""
     n = len(t_rows)
